@@ -1,7 +1,7 @@
 (* C16 — theorems (statements only; proofs are in Proofs*.v) *)
 From Coq Require Import List NArith Bool Arith.
 From GixV.Base Require Import Bytes Outcome.
-From GixV.C16 Require Import Model Spec ProofsMerge ProofsBasic ProofsSingle ProofsWitness.
+From GixV.C16 Require Import Model Spec ProofsMerge ProofsBasic ProofsSingle ProofsPacked ProofsWitness.
 Import ListNotations.
 
 (* ---- packed-refs: the merge of the sorted buffer with the sorted edits ----------------------------- *)
@@ -78,6 +78,23 @@ Theorem single_edit_cas_refines_map_partial :
     end.
 Proof. exact single_edit_refines. Qed.
 
+(* The same with a packed-refs file present (sorted), for a name under refs/heads/ and an edit that changes the
+   reference (RefLog::AndReference): the current value is the loose one, else the packed one; an update is
+   written as loose reference over the packed entry, a deletion removes the loose file and rewrites
+   packed-refs without the name (the whole file goes when it was the last entry).  Reflog-only edits are
+   excluded: they are the known class log-only-expectation-ignores-packed-refs. *)
+Theorem single_edit_with_packed_refs_refines_map_partial :
+  forall (lo : list (bytes * target)) (pk : list (bytes * byte)) (n : bytes) (c : change),
+    ss (keys pk) -> starts_with heads n = true -> valid_change c -> log_mode_of c = AndRef ->
+    lock_ok lo n = true -> blocked n lo [] = false ->
+    match spec_txn (observe (mkStore lo (Some pk))) [mkRefEdit n c false] with
+    | Some v' => exists st', step (mkStore lo (Some pk)) (Txn DeletionsOnly true [mkRefEdit n c false]) = (ROk, st')
+                             /\ agrees st' v'
+    | None => exists err, step (mkStore lo (Some pk)) (Txn DeletionsOnly true [mkRefEdit n c false])
+                          = (RPrepareErr err, mkStore lo (Some pk))
+    end.
+Proof. exact single_edit_packed_refines. Qed.
+
 Theorem txn_refines_map_refuted : exists st ops, ~ refines_map st ops.
 Proof. exact (ex_intro _ df_store (ex_intro _ df_ops df_refutes)). Qed.
 
@@ -122,3 +139,11 @@ Example head_stays_loose_in_remove_loose_mode :
   step ex_store (Txn DeletionsAndUpdatesRemoveLoose true [upd_any head x32])
   = (ROk, mkStore [(head, Obj x32); (ref_a, Obj x31)] None).
 Proof. exact ex_head_stays_loose. Qed.
+Example single_edit_with_packed_refs_hypotheses_satisfiable :
+  ss (keys pk_pk) /\ starts_with heads pk_ref_a = true /\ valid_change pk_change /\ log_mode_of pk_change = AndRef
+  /\ lock_ok pk_lo pk_ref_a = true /\ blocked pk_ref_a pk_lo [] = false.
+Proof. exact pk_hyps. Qed.
+Example packed_delete_example :
+  step (mkStore pk_lo (Some pk_pk)) (Txn DeletionsOnly true [mkRefEdit pk_ref_a pk_change false])
+  = (ROk, mkStore pk_lo (Some [(pk_ref_t, x32)])).
+Proof. exact pk_step. Qed.
